@@ -1706,14 +1706,11 @@ func extractOutputOffsets(
 			outputsArrayOffset := bodyOffset + headerSize + uint32(valueStart)
 
 			// Determine actual array header size from the data.
-			// For indefinite-length arrays (0x9f), header is 1 byte.
-			// For definite-length arrays, use cborArrayHeaderSize.
 			arrayStartIdx := int(headerSize) + valueStart
 			var outputsArrayHeader uint32
-			if arrayStartIdx < len(bodyData) && bodyData[arrayStartIdx] == 0x9f {
-				outputsArrayHeader = 1 // indefinite-length array
-			} else {
-				outputsArrayHeader = uint32(cborArrayHeaderSize(len(outputsRaw)))
+			if arrayStartIdx < len(bodyData) {
+				// definite (possibly non-minimal) or indefinite-length header
+				_, outputsArrayHeader, _ = cborArrayInfo(bodyData[arrayStartIdx:])
 			}
 
 			// Track position within outputs array
